@@ -83,3 +83,8 @@ chk("C16", "exploration", "runtime monitoring: real transcode output read by an 
     "The beancount text of generated priced journals (every commodity tried as V) is read by the harness's own reader: every transaction must sum to exactly zero in the declared operating currency, entries must be chronological, every account used must be open (by date) and not used after its close (by output order), and the multiset of transactions must equal the model's user bookings plus the expected daily value adjustments, amounts within an explicit truncation budget.",
     "Tree-shaped price graphs only; adjustments whose expected amount is within budget of zero may be present or absent; accrued journals take user transactions from knut print.",
     "DESIGN.md §4 C16")
+
+chk("C20", "exploration", "runtime monitoring: real portfolio weights / returns output against the real valued balance report and an exact-rational value reference",
+    "For generated portfolio journals, `portfolio weights` is compared per date and commodity with the share of the A/L totals that `balance -v V --csv -s .` reports, group rows with the sum of their members, the top level with 1, the row tree with the universe file and -m mapping; `portfolio returns` must print one line per reference-calendar period, 0.0% for constant-price periods with external flows only and V_end/V_start-1 (to 0.1%) for periods without flows.",
+    "Returns are judged only in the two families the statement pins down; dates with a zero portfolio total are skipped; float tolerance 2e-6 on weights.",
+    "DESIGN.md §4 C20")
